@@ -166,11 +166,17 @@ func VerifC18_ReaderVsInsert() {
 	nk := vsym.Bytes("nk", 1)
 	var wg sync.WaitGroup
 	wg.Add(2)
+	mode := vsym.IntRange("mode", 0, 2)
+	// the reader's iterator may exist before the writer starts (a long scan meets a later write): then a single
+	// preemption of the writer, in the middle of its insert, is enough to put the reader there
+	var it0 *Iterator
+	if mode != 0 && vsym.IntRange("iteratorFirst", 0, 1) == 1 {
+		it0 = m.NewIterator()
+	}
 	go func() {
 		defer wg.Done()
 		m.Put(nk, []byte{2}, uint64(pre+1))
 	}()
-	mode := vsym.IntRange("mode", 0, 2)
 	go func() {
 		defer wg.Done()
 		switch mode {
@@ -188,7 +194,10 @@ func VerifC18_ReaderVsInsert() {
 				vsym.Assert(len(v) == 1, "concurrent Get returns a malformed value")
 			}
 		case 1:
-			it := m.NewIterator()
+			it := it0
+			if it == nil {
+				it = m.NewIterator()
+			}
 			cnt, oldSeen := 0, 0
 			var pk []byte
 			var ps uint64
@@ -207,7 +216,10 @@ func VerifC18_ReaderVsInsert() {
 			vsym.Assert(oldSeen == pre, "concurrent iteration misses an entry inserted before it started")
 		case 2:
 			t := vsym.Bytes("t", 1)
-			it := m.NewIterator()
+			it := it0
+			if it == nil {
+				it = m.NewIterator()
+			}
 			it.Seek(t)
 			seen := 0
 			for ; it.Valid(); it.Next() {
